@@ -529,6 +529,8 @@ func (s *configurationStore) store(ctx context.Context, store _map.Map[string, *
 	prunedValues := tree.PrunePathMap(values, true)
 	transaction := store.Transaction(ctx)
 	for _, pv := range values {
+		// the address of the value is handed to the Atomix transaction: do not share the loop variable
+		pv := pv
 		entry, err := store.Get(ctx, pv.Path)
 		if err != nil {
 			err = errors.FromAtomix(err)
